@@ -464,13 +464,13 @@ pub fn semtype_to_runtypes(
 ) -> anyhow::Result<(NamedSchema, Vec<NamedSchema>)> {
     let mut schemer = SchemerContext::new(ctx, counter);
     let out = schemer.convert_to_schema(ty, Some(name))?;
+    // the root itself is kept among the definitions when the type refers back to it by name
     let vs: Vec<NamedSchema> = schemer
         .validators
         .into_iter()
         .filter(|it| schemer.recursive_validators.contains(&it.name))
         .collect();
 
-    let vs = vs.into_iter().filter(|it| &it.name != name).collect();
     Ok((
         NamedSchema {
             name: name.clone(),
